@@ -398,7 +398,7 @@ def shrink_case(case, still_fails, keep_prefix=0, budget=150):
 
 # ---------------------------------------------------------------------------------------------------- correspondence
 def correspondence(ctx, name, impl_cmd, model_cmd, cases, nontrivial=None, keep_prefix=0, classify=None,
-                   canon=None, timeout=3600, shrink=True, max_report=3, oracle=None):
+                   canon=None, timeout=3600, shrink=True, max_report=3, oracle=None, valid=None):
     """Run the same cases through the real code (impl_cmd) and the Lean model (model_cmd); diff; report.
     classify(case, impl_lines, model_lines) -> (known-finding id, text) or None.
     oracle(case, impl_lines) -> None if the property itself holds on what the real code answered, else a string.
@@ -446,6 +446,13 @@ def correspondence(ctx, name, impl_cmd, model_cmd, cases, nontrivial=None, keep_
         case = cases[i]
         if shrink and len(case) - keep_prefix > 1:
             def fails(c):
+                try:
+                    return fails0(c)
+                except Exception:
+                    return False
+
+            def fails0(c):
+                if valid and not valid(c): return False
                 a = run_one(ctx, impl_cmd, c, 'shr_i')
                 if canon: a = canon(a)
                 if classify:
